@@ -617,7 +617,8 @@ def take(outname, inname, chunks, index, axis=0):
             }
             return tuple(chunks), graph
 
-        average_chunk_size = int(full_length / len(chunks[axis]))
+        # zero-width chunks can pull the average below one
+        average_chunk_size = max(int(full_length / len(chunks[axis])), 1)
 
         indexer = []
         index = asarray_safe(index, like=index)
